@@ -8,17 +8,20 @@ package zzverif
 import (
 	"encoding/json"
 	"fmt"
+	"math/rand"
 	"os"
+	"runtime"
 	"strconv"
 	"strings"
 	"sync"
+	"time"
 )
 
 type replayFile struct {
-	Label   string            `json:"label"`
-	Values  map[string]string `json:"values"`  // "tag#k" -> value (bools: true/false, ints: decimal, strings: raw)
-	UF      map[string]bool   `json:"uf"`      // "name|arg1|arg2" -> result
-	Params  map[string]int    `json:"params"`
+	Label  string            `json:"label"`
+	Values map[string]string `json:"values"` // "tag#k" -> value (bools: true/false, ints: decimal, strings: raw)
+	UF     map[string]bool   `json:"uf"`     // "name|arg1|arg2" -> result
+	Params map[string]int    `json:"params"`
 }
 
 var (
@@ -159,16 +162,28 @@ func Note(what string, args ...interface{}) {}
 func AtoiOK(s string) bool { _, err := strconv.Atoi(s); return err == nil }
 func AtoiVal(s string) int { n, _ := strconv.Atoi(s); return n }
 
-// Quiesce blocks until no other goroutine can make progress (engine only).
-func Quiesce() {}
+// Quiesce blocks until no other goroutine can make progress. The engine decides
+// that exactly; natively it is approximated by waiting.
+func Quiesce() { time.Sleep(30 * time.Millisecond) }
 
-// Yield is a scheduling point (engine only).
-func Yield() {}
+// Yield is a scheduling point; natively a random short delay.
+func Yield() { Perturb() }
+
+// Perturb is a no-op under the engine; natively it randomly delays the calling
+// goroutine so that repeated native replays sample different interleavings.
+func Perturb() {
+	switch rand.Intn(4) {
+	case 0:
+		runtime.Gosched()
+	case 1:
+		time.Sleep(time.Duration(rand.Intn(300)) * time.Microsecond)
+	}
+}
 
 func LiveLibGoroutines() int { return 0 }
-func AllowTimerFires(n int) {}
-func TimerFires() int       { return 0 }
-func IsSymbolic() bool      { return false }
+func AllowTimerFires(n int)  {}
+func TimerFires() int        { return 0 }
+func IsSymbolic() bool       { return false }
 
 // RunReplay runs f, swallowing a failed Assume, and reports the failed assertion labels.
 func RunReplay(f func()) (failed []string, panicked interface{}) {
